@@ -536,16 +536,32 @@ fn gen_value(c: &mut Ctx, schema: &Schema, ty: &TypeRef, dc: &mut DeclCtx, hint:
     gen_value_inner(c, schema, ty, dc, hint, 0, true).expect("top-level values can always fall back to a variable")
 }
 
-fn gen_field_args(c: &mut Ctx, schema: &Schema, defs: &[ArgDef], dc: &mut DeclCtx, may_omit_required: bool) -> Vec<(String, Val)> {
-    let mut out = vec![];
+fn gen_field_args(c: &mut Ctx, schema: &Schema, defs: &[ArgDef], dc: &mut DeclCtx, may_omit_required: bool, coincide: bool) -> Vec<(String, Val)> {
+    let mut out: Vec<(String, Val)> = vec![];
     for a in defs {
         let required = a.ty.is_non_null() && a.default.is_none();
         let provide = if required { !may_omit_required || c.t.chance(1, 2) } else { c.t.chance(1, 2) };
         if provide {
-            out.push((a.name.clone(), gen_value(c, schema, &a.ty, dc, &a.name)));
+            // passing the SAME value to several parameters of one client field makes keys that differ
+            // inside the field coincide after substitution: a merge case of its own
+            let earlier: Option<(Val, TypeRef)> = out.iter().find_map(|(n, v): &(String, Val)| {
+                let d = defs.iter().find(|d| d.name == *n)?;
+                if type_compatible_value(&d.ty, &a.ty) { Some((v.clone(), d.ty.clone())) } else { None }
+            });
+            let v = match earlier {
+                Some((v, _)) if coincide && c.t.chance(1, 2) => v,
+                _ => gen_value(c, schema, &a.ty, dc, &a.name),
+            };
+            out.push((a.name.clone(), v));
         }
     }
     out
+}
+
+/// May a value generated for a parameter of type `from` be passed to one of type `to`? (same named
+/// type; the target must not be stricter about null)
+fn type_compatible_value(from: &TypeRef, to: &TypeRef) -> bool {
+    from.inner_name() == to.inner_name() && from.is_list() == to.is_list() && (from.is_non_null() || !to.is_non_null())
 }
 
 #[derive(Clone)]
@@ -620,7 +636,7 @@ fn gen_selset(c: &mut Ctx, p: &Project, ty: &str, depth: usize, dc: &mut DeclCtx
         }
         let mut sel = match cand {
             Cand::Server(f) => {
-                let args = gen_field_args(c, schema, &f.args, dc, false);
+                let args = gen_field_args(c, schema, &f.args, dc, false, false);
                 let target_name = f.ty.inner_name().to_string();
                 if schema.is_composite(&target_name) {
                     let children = gen_selset(c, p, &target_name, depth + 1, dc, decl_index);
@@ -641,7 +657,7 @@ fn gen_selset(c: &mut Ctx, p: &Project, ty: &str, depth: usize, dc: &mut DeclCtx
                 let fetchable = ty == "Query" || schema.get(ty).map(|t| t.has_id()).unwrap_or(false);
                 let loadable = c.cfg.advanced && !d.is_pointer() && (fetchable || c.cfg.risky) && c.t.chance(1, 5);
                 let defs: Vec<ArgDef> = d.vars.iter().map(|v| ArgDef { name: v.name.clone(), ty: v.ty.clone(), default: v.default.clone() }).collect();
-                let args = gen_field_args(c, schema, &defs, dc, loadable && c.cfg.risky);
+                let args = gen_field_args(c, schema, &defs, dc, loadable && c.cfg.risky, true);
                 match &d.kind {
                     DeclKind::Pointer { target } => {
                         let children = gen_selset(c, p, target.inner_name(), depth + 1, dc, decl_index);
